@@ -67,7 +67,7 @@ PROPS["C19"] = {
     "props": ["OsmVerif.Props.C19", "OsmVerif.Props.C19b"],
     "gens": ["Replication"],
     "timeout": 1800,
-    "required_theorems": ["findBound_fuel_stable", "search_fuel_sufficient", "findInRange_fuel_stable", "search_returns_first_at_or_after", "search_returns_first_partial", "search_future_returns_current",
+    "required_theorems": ["stater_minima", "findBound_fuel_stable", "search_fuel_sufficient", "findInRange_fuel_stable", "search_returns_first_at_or_after", "search_returns_first_partial", "search_future_returns_current",
                           "findBound_ok", "findInRangeL_fst", "findInRangeL_requests", "findInRangeL_requests_gapfree",
                           "formats_eq_planet_layout", "seqPath_layout", "seqPath_injective", "changeset_seq_off_by_one", "findInRange_requests_sum", "search_requests_sum", "findBound_requests", "search_requests_sum_min_missing", "clog_spec"],
     "technique": "Lean 4 theorems (induction on fuel with the interval invariant a < t <= b) about a hand-written executable model of searchTimestamp/findBound/findInRange that also returns the request log; tied by comparing result and exact requested URL sequence with the real code behind a fake transport; URL recipes/formats extracted from the source and proved equal to the pinned planet layout",
